@@ -9,6 +9,7 @@ Metamorphic checks on the implementation alone: chi x constant, opacity unit, wa
 Falsifier: the formula -0.4*chi(lambda)/chi(V) with exact linear interpolation in Python Fractions.
 """
 import bisect
+import math
 import os
 import pickle
 import shutil
@@ -27,16 +28,28 @@ RULE = ('cases = (opacity table in increasing wavelength covering 0.55 micron, w
         'get_av after each step); non-trivial when at least one query '
         'falls strictly inside the table away from V; distinct = distinct canonical hash of the generated inputs')
 REQUIRED_BRANCHES = ['query_inside', 'query_outside_low', 'query_outside_high', 'query_on_node', 'query_at_V',
-                     'tab_micron', 'tab_nm', 'tab_m', 'query_micron', 'query_nm', 'query_m',
+                     'tab_micron', 'tab_nm', 'tab_m', 'tab_AA', 'tab_cm', 'tab_mm',
+                     'query_micron', 'query_nm', 'query_m', 'query_AA', 'query_cm', 'query_mm',
+                     'query_shape_0d', 'query_shape_1d', 'query_shape_2d', 'v_first_node', 'v_last_node',
                      'chi_cm2_g', 'chi_m2_kg', 'via_direct', 'via_pickle', 'via_table', 'via_file',
                      'rows_2', 'rows_200',
                      'hist_chi_scale', 'hist_chi_new', 'hist_wav_unit', 'hist_wav_new', 'hist_table', 'hist_pickle']
 ASSUMPTIONS = ['IEEE rounding is not modelled: patterns compared within 1e-9 relative (exactly 0 outside the table)',
+               'decision margin: a query (or V used as a query) that, converted exactly to the table unit, lies within 4 ulp of '
+               'the first / last node sits on the jump between the tabulated end value and 0; the float unit conversion '
+               '(wav.to(self.wav.unit)) decides the side, so either value is accepted there and the query is counted in '
+               'margin_relaxed; everywhere else, including V strictly inside the table, the comparison is strict',
                'tables strictly increasing in wavelength, positive opacities, covering 0.55 micron',
                'unit conversions of table / V / queries are done by astropy in float on the harness side exactly as '
                'get_av does (wav.to(self.wav.unit)); the model receives those floats']
 N = {'quick': 1000, 'thorough': 20000}
-UNIT_EXP = {'micron': 0, 'nm': 3, 'm': -6}
+UNIT_EXP = {'micron': 0, 'nm': 3, 'm': -6, 'AA': 4, 'cm': -4, 'mm': -3}     # 1 micron = 10**exp units
+BOUNDARY_FINDING = 'Extinction.get_av:boundary-unit-conversion'   # match key for KNOWN_FINDINGS.txt
+# a query / V that lies inside the table in exact arithmetic but is moved 1 ulp outside by the float unit conversion
+# makes get_av return 0 there.  False: such inputs are counted (branch `boundary_conversion_outside`) and shown in the
+# evidence; True: they fail the check with the finding key above.
+REPORT_BOUNDARY_FINDING = False
+BOUNDARY_NOTES = []
 VIAS = ['direct', 'pickle', 'table', 'file']
 
 
@@ -66,6 +79,11 @@ def gen_case(rng, directed=None):
     # table nodes in micron as (mantissa, exponent); must cover 0.55
     lo = gen_mant(rng, 0.01, 0.5, 2)
     hi = gen_mant(rng, 0.6, 5000., 2)
+    v_node = directed.get('v_node') or (rng.choice(['first', 'last']) if rng.random() < 0.08 else None)
+    if v_node == 'first':
+        lo = ('5.5', -1)                 # the table starts exactly at V
+    elif v_node == 'last':
+        hi = ('5.5', -1)                 # the table ends exactly at V
     lo_f, hi_f = dec(*lo), dec(*hi)
     nodes = {lo, hi}
     tries = 0
@@ -101,8 +119,13 @@ def gen_case(rng, directed=None):
             vals.append(in_unit(me[0], me[1], qunit))
         vals.append(in_unit('5.5', -1, qunit))
         rng.shuffle(vals)
-        queries.append(dict(unit=qunit, values=vals))
-    case = dict(tab_unit=tab_unit, chi_unit=chi_unit, via=via, wav=wav, chi=chi, queries=queries,
+        shape = rng.choice(['1d', '1d', '2d', '0d'])
+        if shape == '0d':
+            vals = vals[:1] if rng.random() < 0.5 else [in_unit('5.5', -1, qunit)]
+        elif shape == '2d' and len(vals) % 2:
+            vals = vals[:-1]
+        queries.append(dict(unit=qunit, values=vals, shape=shape))
+    case = dict(tab_unit=tab_unit, chi_unit=chi_unit, via=via, wav=wav, chi=chi, queries=queries, v_node=v_node,
                 chi_factor=rng.choice([2., 0.1, 1e3, 7.3, 1e-4]),
                 alt_unit=rng.choice([k for k in UNIT_EXP if k != tab_unit]))
     # history on the one object: each step is followed by get_av on all queries
@@ -153,6 +176,15 @@ DIRECTED = [
 ]
 
 
+# V = 0.55 micron as the first / last node of the table, in every wavelength unit; queries in another unit too
+for _k, _unit in enumerate(['micron', 'nm', 'AA', 'cm', 'm', 'mm']):
+    _other = ['cm', 'micron', 'micron', 'micron', 'AA', 'nm'][_k]
+    DIRECTED.append(dict(rows=[3, 2, 5][_k % 3], tab_unit=_unit, v_node='first', via=VIAS[_k % 4],
+                         query_units=[_unit, 'micron', _other], history=['chi_scale']))
+    DIRECTED.append(dict(rows=[4, 2, 12][_k % 3], tab_unit=_unit, v_node='last', via=VIAS[(_k + 1) % 4],
+                         query_units=['micron', _unit, _other], history=['chi_new']))
+
+
 def gen_cases(seed, tier):
     for i in range(N[tier]):
         rng = case_rng(seed, PID, i)
@@ -163,7 +195,7 @@ def gen_cases(seed, tier):
 
 def units():
     from astropy import units as u
-    return {'micron': u.micron, 'nm': u.nm, 'm': u.m, 'cm2/g': u.cm ** 2 / u.g, 'm2/kg': u.m ** 2 / u.kg}
+    return {'micron': u.micron, 'nm': u.nm, 'm': u.m, 'AA': u.AA, 'cm': u.cm, 'mm': u.mm, 'cm2/g': u.cm ** 2 / u.g, 'm2/kg': u.m ** 2 / u.kg}
 
 
 def build(case, d, wav=None, chi=None, tab_unit=None, chi_unit=None, via=None):
@@ -197,20 +229,34 @@ def build(case, d, wav=None, chi=None, tab_unit=None, chi_unit=None, via=None):
     return e
 
 
-def av_values(e, vals, unit):
+def av_values(e, vals, unit, shape='1d'):
+    """get_av on a 0-d, 1-d or 2-D Quantity; the result flattened in C order"""
     from astropy import units as u
-    r = e.get_av(np.array(vals, dtype=float) * unit)
-    return np.asarray(u.Quantity(r).to_value(u.dimensionless_unscaled), dtype=float)
+    a = np.array(vals, dtype=float)
+    if shape == '0d':
+        q = float(a[0]) * unit
+    elif shape == '2d':
+        q = a.reshape(2, -1) * unit
+    else:
+        q = a * unit
+    r = e.get_av(q)
+    out = np.asarray(u.Quantity(r).to_value(u.dimensionless_unscaled), dtype=float)
+    if shape == '2d' and out.shape != (2, len(vals) // 2):
+        raise ValueError('get_av returned shape %r for a (2, %d) query' % (out.shape, len(vals) // 2))
+    return out.ravel()
 
 
 # ----------------------------------------------------------------------------- independent exact oracle
 
-def exact_av(wav, chi, v, x):
+class ExactLaw(object):
     """-0.4*chi(x)/chi(V): chi linear between nodes, 0 outside (numerator), edge value outside (denominator)"""
-    W = [Fraction(w) for w in wav]
-    C = [Fraction(c) for c in chi]
 
-    def interp(t, left, right):
+    def __init__(self, wav, chi):
+        self.W = [Fraction(w) for w in wav]
+        self.C = [Fraction(c) for c in chi]
+
+    def interp(self, t, left, right):
+        W, C = self.W, self.C
         t = Fraction(t)
         if t < W[0]:
             return left
@@ -220,7 +266,23 @@ def exact_av(wav, chi, v, x):
         if W[j] == t:
             return C[j]
         return C[j - 1] + (C[j] - C[j - 1]) * (t - W[j - 1]) / (W[j] - W[j - 1])
-    return Fraction(-2, 5) * interp(x, 0, 0) / interp(v, C[0], C[-1])
+
+    def av(self, v, x):
+        return Fraction(-2, 5) * self.interp(x, 0, 0) / self.interp(v, self.C[0], self.C[-1])
+
+
+def exact_av(wav, chi, v, x):
+    return ExactLaw(wav, chi).av(v, x)
+
+
+def nominal(value):
+    """the decimal number a float was written as (shortest repr), exactly"""
+    return Fraction(repr(float(value)))
+
+
+def nominal_in_unit(value, from_unit, to_unit):
+    """the nominal (decimal) `value` [from_unit] expressed in `to_unit` with the exact power-of-ten factor"""
+    return nominal(value) * Fraction(10) ** (UNIT_EXP[to_unit] - UNIT_EXP[from_unit])
 
 
 # ----------------------------------------------------------------------------- one case
@@ -230,7 +292,7 @@ def same(a, m, tol=1e-9):
     return np.isfinite(a) and abs(float(a) - m) <= tol * abs(m)
 
 
-def compare(e, wav, chi, tab_unit, queries, drv, branches, label, via):
+def compare(e, wav, chi, tab_unit, queries, drv, branches, label, via, relaxed):
     """get_av of the object `e` on all queries against the model for the table (wav, chi) it holds now;
     returns (failing CaseResult or None, nontrivial)"""
     from astropy import units as u
@@ -241,12 +303,14 @@ def compare(e, wav, chi, tab_unit, queries, drv, branches, label, via):
     nodeset = set(wav)
     tab_txt = ' '.join('%s %s' % (rat(w), rat(c)) for w, c in zip(wav, chi))
     nontrivial = False
+    exact = None
     for q in queries:
         qu = U[q['unit']]
         branches.add('query_' + q['unit'])
+        branches.add('query_shape_' + q.get('shape', '1d'))
         try:
             with common.quiet():
-                got = av_values(e, q['values'], qu)
+                got = av_values(e, q['values'], qu, q.get('shape', '1d'))
         except Exception as ex:
             return CaseResult(False, violates=True, branches=sorted(branches),
                               detail='%s: get_av raised %s: %s' % (label, type(ex).__name__, ex)), nontrivial
@@ -268,6 +332,39 @@ def compare(e, wav, chi, tab_unit, queries, drv, branches, label, via):
                 nontrivial = True
             if x == v:
                 branches.add('query_at_V')
+            # decision margin: the point as written, converted exactly, lies within 4 ulp of an end node of the table,
+            # where the pattern jumps between the tabulated end value and 0; the float conversion decides the side
+            xe = nominal_in_unit(raw, q['unit'], tab_unit)
+            near = [w for w in (lo, hi) if abs(xe - Fraction(w)) <= 4 * Fraction(math.ulp(w))]
+            if near:
+                relaxed[0] += 1
+                branches.add('margin_relaxed_end_node')
+                if exact is None:
+                    exact = ExactLaw([nominal(w) for w in wav], chi)
+                end_val = exact.av(nominal_in_unit(0.55, 'micron', tab_unit), nominal(near[0]))
+                if not (float(g) == 0. or same(g, end_val) or same(g, m)):
+                    return CaseResult(False, violates=True, branches=sorted(branches),
+                                      detail=('%s: query %r %s within 4 ulp of the end node %r %s: get_av = %r is neither 0 nor the '
+                                              'tabulated end value %r' % (label, raw, q['unit'], near[0], tab_unit, float(g),
+                                                                          float(end_val)))), nontrivial
+                if float(g) == 0. and (x < lo or x > hi):
+                    branches.add('boundary_conversion_outside')
+                continue
+            if same(g, m) and float(g) == 0. and (x < lo or x > hi):
+                # get_av says "outside the table": is the query, as written (decimal, exact power of ten between the
+                # units), really outside the table as written?  If not, the float unit conversion moved it out.
+                if exact is None:
+                    exact = ExactLaw([nominal(w) for w in wav], chi)
+                want = exact.av(nominal_in_unit(0.55, 'micron', tab_unit), nominal_in_unit(raw, q['unit'], tab_unit))
+                if want != 0:
+                    branches.add('boundary_conversion_outside')
+                    note = ('%s: query %r %s against table [%r..%r] %s: get_av = %r, but the query as written lies on / inside '
+                            'the table and -0.4*chi/chi(V) = %r (the float unit conversion gives x = %r, V = %r)'
+                            % (label, raw, q['unit'], lo, hi, tab_unit, float(g), float(want), x, v))
+                    BOUNDARY_NOTES.append(note)
+                    if REPORT_BOUNDARY_FINDING:
+                        return CaseResult(False, violates=True, finding=BOUNDARY_FINDING, branches=sorted(branches),
+                                          detail=note), nontrivial
             if not same(g, m):
                 ex_av = exact_av(wav, chi, v, x)
                 viol = not same(g, ex_av)
@@ -322,13 +419,14 @@ def run_case(case):
                 'rows_%d' % len(case['wav']) if len(case['wav']) in (2, 200) else 'rows_other'}
     try:
         drv = common.driver()
+        relaxed = [0]
         try:
             with common.quiet():
                 e = build(case, d)
         except Exception as ex:
             return CaseResult(False, violates=True, detail='building the law (%s) raised %s: %s' % (case['via'], type(ex).__name__, ex))
         bad, nontrivial = compare(e, case['wav'], case['chi'], case['tab_unit'], case['queries'], drv, branches,
-                                  'fresh object', case['via'])
+                                  'fresh object', case['via'], relaxed)
         if bad is not None:
             return bad
         # ---- metamorphic checks on the implementation alone
@@ -351,13 +449,16 @@ def run_case(case):
             done.append(step['op'])
             branches.add('hist_' + step['op'])
             bad, _ = compare(e, wav, chi, tab_unit, case['queries'], drv, branches,
-                             'same object after get_av and then %s' % ' -> '.join(done), case['via'])
+                             'same object after get_av and then %s' % ' -> '.join(done), case['via'], relaxed)
             if bad is not None:
                 return bad
+        if case.get('v_node'):
+            branches.add('v_%s_node' % case['v_node'])
         sample = dict(rows=len(case['wav']), tab_unit=case['tab_unit'], chi_unit=case['chi_unit'], via=case['via'],
                       query_units=[q['unit'] for q in case['queries']], wav0=case['wav'][:3], chi0=case['chi'][:3],
                       history=done)
-        return CaseResult(True, branches=sorted(branches), key=common.canon_hash(case), nontrivial=nontrivial, sample=sample)
+        return CaseResult(True, branches=sorted(branches), key=common.canon_hash(case), nontrivial=nontrivial, sample=sample,
+                          relaxed=relaxed[0])
     finally:
         shutil.rmtree(d, ignore_errors=True)
 
